@@ -60,7 +60,7 @@ def step (σ : St) (op obs : List String) : St × List Msg :=
   | o :: i :: rest, _ =>
     match stepCommon σ.cfg (getI σ (toNat! i)) (o :: rest) obs with
     | some (x, msgs) =>
-      let bc := if o = "set" ∨ o = "post" then bcMeshes (obs.getD 2 "-")
+      let bc := if o = "set" ∨ o = "post" ∨ o = "setq" then bcMeshes (obs.getD 2 "-")
                 else if o = "expire" ∨ o = "delete" then bcMeshes (obs.getD 1 "-") else []
       ({ setI σ (toNat! i) x with pool := σ.pool ++ bc }, msgs)
     | none => (σ, [.diff "parse" "?" (" ".intercalate op)])
